@@ -327,28 +327,23 @@ theorem appendX_ignore_new (d : List Nat) (v : Nat) (hd : d.Pairwise (· < ·)) 
   simp [appendX, Val.isInt, Val.isIn, hv]
   exact sortDup_eq_sortedSet _ (nodup_append_new d v hd hv)
 
-/-- … **but for a member it is not the set insertion the property asks for** (known finding
-FC14a): the call succeeds and the member is in the data twice — one more element, still
-non-decreasing, no longer strictly ascending. -/
-theorem appendX_ignore_dup_witness (d : List Nat) (v : Nat) (hd : d.Pairwise (· < ·)) (hv : v ∈ d) :
-    ∃ d', appendX d (.int v) true true = .ok d' ∧ d'.length = d.length + 1 ∧ d'.count v = 2 ∧
-      d'.Pairwise (· ≤ ·) ∧ ¬ d'.Pairwise (· < ·) := by
-  refine ⟨sortDup (d ++ [v]), by simp [appendX, Val.isInt, Val.isIn], ?_, ?_, sortDup_sorted _, ?_⟩
-  · simp [length_sortDup]
-  · rw [count_sortDup]
-    have : d.count v = 1 := by rw [(nodup_of_asc d hd).count]; simp [hv]
-    simp [List.count_append, this]
-  · intro hp
-    have hn : (sortDup (d ++ [v])).Nodup := hp.imp (fun h => Nat.ne_of_lt h)
-    have h2 : (sortDup (d ++ [v])).count v = 2 := by
-      rw [count_sortDup]
-      have : d.count v = 1 := by rw [(nodup_of_asc d hd).count]; simp [hv]
-      simp [List.count_append, this]
-    have := List.nodup_iff_count.mp hn v
-    omega
+/-- … and for a value that is a member already it is a no-op, for an `int` and for its decimal `str`, with or without
+`sort`: the range keeps each member once.  (Before fix aef5a7a of /repo the member was added a second time — finding
+FC14a, then stated here as `appendX_ignore_dup_witness`.) -/
+theorem appendX_ignore_member (d : List Nat) (v : Nat) (hv : v ∈ d) (sort : Bool) :
+    appendX d (.int v) sort true = .ok d ∧ appendX d (.strOf v) sort true = .ok d := by
+  simp [appendX, Val.isInt, Val.isIn, hv]
+
+/-- so a strictly ascending range stays strictly ascending under `append(·, ignore_errors=True)` whatever the value -/
+theorem appendX_ignore_keeps_ascending (d : List Nat) (v : Nat) (hd : d.Pairwise (· < ·)) :
+    ∃ d', appendX d (.int v) true true = .ok d' ∧ d'.Pairwise (· < ·) ∧ v ∈ d' := by
+  by_cases hv : v ∈ d
+  · exact ⟨d, (appendX_ignore_member d v hv true).1, hd, hv⟩
+  · refine ⟨sortedSet (d ++ [v]), appendX_ignore_new d v hd hv, sortedSet_sorted _, ?_⟩
+    exact (mem_sortedSet _ _).mpr (by simp)
 
 example : [1, 2, 3].Pairwise (· < ·) ∧ 2 ∈ [1, 2, 3] ∧
-    appendX [1, 2, 3] (.int 2) true true = .ok [1, 2, 2, 3] := by decide
+    appendX [1, 2, 3] (.int 2) true true = .ok [1, 2, 3] ∧ appendX [1, 2, 3] (.strOf 2) false true = .ok [1, 2, 3] := by decide
 
 /-- `sort=False` puts a new value at the end; a `str` is refused by a non-empty range unless
 `ignore_errors` is set (then it is converted); a non-numeric `str` never changes the data. -/
